@@ -34,6 +34,7 @@ import (
 	v2 "mosn.io/mosn/pkg/config/v2"
 	"mosn.io/mosn/pkg/configmanager"
 	"mosn.io/mosn/pkg/router"
+	"mosn.io/mosn/pkg/server"
 	"mosn.io/mosn/pkg/types"
 	"mosn.io/mosn/pkg/upstream/cluster"
 	"mosn.io/pkg/variable"
@@ -205,7 +206,7 @@ func c12Updates(c *lab.Ctx) {
 		l := 1 + hrng.Intn(30)
 		var ops []string
 		for si := 0; si < l; si++ {
-			op := hrng.Intn(14)
+			op := hrng.Intn(16)
 			desc := ""
 			switch op {
 			case 0, 1: // add or update a router configuration
@@ -262,6 +263,45 @@ func c12Updates(c *lab.Ctx) {
 				if err == nil {
 					model.routers[name] = mine
 				}
+			case 14, 15: // update of the running proxy listener: fields that are applied live and fields that are not
+				la := server.GetListenerAdapterInstance()
+				live := la.FindListenerByName("", "ln-Http1")
+				if live == nil {
+					desc = "listener-update(ln-Http1 not found,err=true)"
+					break
+				}
+				b, _ := json.Marshal(live.Config())
+				lc := &v2.Listener{}
+				if err := json.Unmarshal(b, lc); err != nil {
+					desc = "listener-update(copy failed,err=true)"
+					break
+				}
+				lc.Addr = live.Addr()
+				var changed []string
+				// applied live by an update
+				if hrng.Bool() {
+					lc.PerConnBufferLimitBytes = uint32(hrng.PickInt(0, 16384, 65536, 1<<20))
+					changed = append(changed, "buffer-limit")
+				}
+				if hrng.Bool() {
+					lc.Inspector = !lc.Inspector
+					changed = append(changed, "inspector")
+				}
+				// NOT applied to a running listener: the running listener keeps its values
+				if hrng.Bool() {
+					lc.BindToPort = !lc.BindToPort
+					changed = append(changed, "bind_port")
+				}
+				if hrng.Bool() {
+					lc.Type = v2.ListenerType(hrng.PickStr("ingress", "egress", ""))
+					changed = append(changed, "type")
+				}
+				if hrng.Bool() {
+					lc.DefaultReadBufferSize = hrng.PickInt(0, 4096, 1<<16)
+					changed = append(changed, "read-buffer-size")
+				}
+				err := la.AddOrUpdateListener("", lc)
+				desc = fmt.Sprintf("listener-update(ln-Http1,%s,err=%v)", strings.Join(changed, "+"), err != nil)
 			case 4: // invalid router: duplicate domain
 				name := routerNames[hrng.Intn(len(routerNames))]
 				rc := &v2.RouterConfiguration{RouterConfigurationConfig: v2.RouterConfigurationConfig{RouterConfigName: name},
@@ -505,6 +545,41 @@ func c12Compare(c *lab.Ctx, model *c12Model, routerNames, clusterNames []string,
 						fmt.Sprintf("router %s, Host %s path %s: live routes to %s, the update history gives %s", name, h, p, lv, rf), wit(""))
 					resync = true
 				}
+			}
+		}
+	}
+	// listeners: the dumped entry of a running listener must describe that listener (a fresh MOSN started from the dump must come up
+	// with the listener the running one has: same bind_port, type, filters, buffer sizes, ...)
+	for _, s := range dumped.Servers {
+		for i := range s.Listeners {
+			dl := &s.Listeners[i]
+			live := server.GetListenerAdapterInstance().FindListenerByName("", dl.Name)
+			if live == nil {
+				c.Violation("dump-equals-live", "C12/listener/dumped-but-not-running/after="+lastOp, "listener "+dl.Name+" is in the dumped configuration but not running", wit(""))
+				continue
+			}
+			norm := func(v interface{}) map[string]interface{} {
+				b, _ := json.Marshal(v)
+				m := map[string]interface{}{}
+				_ = json.Unmarshal(b, &m)
+				return m
+			}
+			dm, lm := norm(dl), norm(live.Config())
+			var diffs []string
+			for k := range dm {
+				if !reflect.DeepEqual(dm[k], lm[k]) {
+					diffs = append(diffs, fmt.Sprintf("%s: dumped %v, running %v", k, dm[k], lm[k]))
+				}
+			}
+			for k := range lm {
+				if _, ok := dm[k]; !ok {
+					diffs = append(diffs, fmt.Sprintf("%s: absent from the dump, running %v", k, lm[k]))
+				}
+			}
+			sort.Strings(diffs)
+			if len(diffs) > 0 {
+				c.Violation("dump-equals-live", "C12/listener/live-vs-dump/after="+lastOp,
+					fmt.Sprintf("listener %s: the dumped configuration does not describe the running listener: %s", dl.Name, truncate(strings.Join(diffs, "; "), 600)), wit(""))
 			}
 		}
 	}
